@@ -68,8 +68,10 @@ def ast_docs(src, flt, repo, extra=()):
     key = (src, flt, repo, tuple(extra), os.path.getmtime(src))
     if key in _ast_cache:
         return _ast_cache[key]
-    p = subprocess.run(['clang-14', '-I' + repo, '-DHAVE_CONFIG_H', '-fsyntax-only', '-Xclang',
-                        '-ast-dump=json', '-Xclang', '-ast-dump-filter=' + flt, *extra, src],
+    first = [x for x in extra if x.startswith('-I')]
+    later = [x for x in extra if not x.startswith('-I')]
+    p = subprocess.run(['clang-14', *first, '-I' + repo, '-DHAVE_CONFIG_H', '-fsyntax-only', '-Xclang',
+                        '-ast-dump=json', '-Xclang', '-ast-dump-filter=' + flt, *later, src],
                        capture_output=True, text=True)
     if p.returncode != 0:
         raise Refused('clang does not accept %s: %s' % (src, p.stderr.strip()[-300:]))
@@ -305,6 +307,8 @@ class Tr:
                         r.b = v.e
                     return r
                 return self.conv(v, ctype(n))
+            if ck == 'NullToPointer' and self.mod and v.t[0] == 'int' and v.r == (0, 0):
+                return V('none', ('nullptr',))
             if ck == 'IntegralToBoolean':
                 if v.t[0] == 'bool':
                     return v
@@ -794,6 +798,8 @@ class Tr:
             return self.recur(ctx, env)
         if k == '$recur':
             return self.recur(self.loops[-1], env)
+        if k == '$unroll':
+            return s['go'](env, s['k'])
         if k == 'BreakStmt':
             if not self.loops:
                 self.refuse('break outside a loop')
@@ -938,6 +944,9 @@ class Tr:
         for x in walk(body):
             if x.get('kind') in ('LabelStmt', 'SwitchStmt', 'DoStmt'):
                 self.refuse('contains ' + x['kind'] + ' inside a loop')
+        un = self.unroll(cond, inc, body, rest, env, ret)
+        if un is not None:
+            return un
         assigned = self.assigned_keys(s)
         writes_mem = any(x.get('kind') == 'CallExpr' for x in walk(body)) or \
             any(x.get('kind') in ('BinaryOperator', 'CompoundAssignOperator') and
@@ -961,7 +970,6 @@ class Tr:
                 for fk in fkeys:
                     env2[fk] = V(f'{pn}.{lean_id(fk.split("->")[1])}', env[fk].t, env[fk].r, nz=env[fk].nz)
                 keys = [k for k in keys if k not in fkeys]
-                ctx_struct = pn
         for key in keys:
             v = env[key]
             pn = self.fresh(key)
@@ -973,8 +981,18 @@ class Tr:
         args_now = ' '.join(args0 + [self.atom(env[key].e) for key in keys])
         ctx = {'name': lname, 'keys': keys, 'inc': inc, 'rest': rest,
                'fixed': [x[1:].split(' : ')[0] for x in params[:len(args0)]]}
-        c = self.cond(cond, env2)
-        lets = self.flush_loads(env2)
+        v = self.expr(cond, env2)
+        if v.t[0] == 'bool':
+            c = v.e
+        elif v.t[0] == 'int':
+            c = v.b if v.b is not None else f'({v.e} != 0#{v.t[1]})'
+        else:
+            self.refuse('loop condition of type ' + str(v.t))
+        had_side = bool(self.pending)
+        # `while (n--)`: the side effect of the test happens whether or not the loop is entered
+        lets = self.flush(env2)
+        if had_side:
+            cond = {'kind': 'NullStmt'}       # no range refinement from a test with side effects
         self.loops.append(ctx)
         try:
             body_t = self.stmts([body, {'kind': '$continue'}], self.refine(cond, env2, True), ret)
@@ -986,6 +1004,49 @@ class Tr:
                 + indent(indent(lets + f'if {c} then\n{indent(body_t)}\nelse\n{indent(exit_t)}')) + '\n')
         self.loopdefs.append(text)
         return f'{lname} {self.sigargs}fuel fuel {args_now}'
+
+    def static_truth(self, n, env):
+        """True / False when interval analysis decides the comparison `n`, else None"""
+        n = strip_parens(n)
+        if n.get('kind') != 'BinaryOperator' or n.get('opcode') not in ('<', '>', '<=', '>=', '==', '!='):
+            return None
+        a, b = self.peek(n['inner'][0], env), self.peek(n['inner'][1], env)
+        if a is None or b is None or a.t[0] != 'int' or b.t[0] != 'int':
+            return None
+        (al, ah), (bl, bh), op = a.r, b.r, n['opcode']
+        if op in ('>', '>='):
+            (al, ah), (bl, bh), op = (bl, bh), (al, ah), {'>': '<', '>=': '<='}[op]
+        if op == '<':
+            return True if ah < bl else False if al >= bh else None
+        if op == '<=':
+            return True if ah <= bl else False if al > bh else None
+        if op == '==':
+            return True if al == ah == bl == bh else False if ah < bl or bh < al else None
+        return False if al == ah == bl == bh else True if ah < bl or bh < al else None
+
+    def unroll(self, cond, inc, body, rest, env, ret):
+        """loops whose every test is decided by interval analysis (`for (i = 0; i < 4; i++)` with
+        `i` untouched by the body) are unrolled; None = not such a loop"""
+        if inc is None or self.static_truth(cond, env) is None:
+            return None
+        iv = strip_parens(inc)
+        if iv.get('kind') != 'UnaryOperator' or iv.get('opcode') not in ('++', '--'):
+            return None
+        key = self.as_var(iv['inner'][0], False)
+        if key is None or key in self.assigned_keys(body):
+            return None
+        if any(x.get('kind') in ('BreakStmt', 'ContinueStmt') for x in walk(body)):
+            return None
+        def go(e, k):
+            t = self.static_truth(cond, e)
+            if t is None:
+                self.refuse('unrolled loop: test not decided after %d rounds' % k)
+            if not t:
+                return self.stmts(rest, e, ret)
+            if k >= 16:
+                self.refuse('unrolled loop: more than 16 rounds')
+            return self.stmts([body, inc, {'kind': '$unroll', 'go': go, 'k': k + 1}], e, ret)
+        return go(env, 0)
 
     def atom(self, e):
         e = e.strip()
@@ -1514,6 +1575,9 @@ def ret_ctype(d):
         return 'bool'
     if head in INT_TYPES:
         return ('int',) + INT_TYPES[head]
+    if head.endswith('*') and head[:-1].replace('const ', '').strip() in ('void', 'char', 'unsigned char',
+                                                                           'uint8_t'):
+        return ('ptr',)
     raise Refused('%s: unsupported return type %s' % (d.get('name'), head))
 
 
@@ -1587,7 +1651,7 @@ class Module:
         return ' → '.join(dom + [' × '.join(cod) if cod else 'Unit'])
 
     # ---- one function
-    def fn(self, cname, roles, stop_at=(), keep=(), flt=None, lean_name=None):
+    def fn(self, cname, roles, stop_at=(), keep=(), flt=None, lean_name=None, _unrolled=False):
         d = ast_of(self.src, cname, self.repo, self.extra, flt or self.flt or cname)
         name = lean_name or cname
         tr = Tr(name, roles, mod=self)
@@ -1596,7 +1660,7 @@ class Module:
         body = [c for c in d['inner'] if c['kind'] == 'CompoundStmt'][0]
         collect_labels(body, tr)
         rett = ret_ctype(d)
-        has_loop = any(x.get('kind') in ('WhileStmt', 'ForStmt') for x in walk(body))
+        has_loop = any(x.get('kind') in ('WhileStmt', 'ForStmt') for x in walk(body)) and not _unrolled
         pdecls = [c for c in d['inner'] if c['kind'] == 'ParmVarDecl']
         missing = set(roles) - {p['name'] for p in pdecls}
         if missing:
@@ -1653,7 +1717,7 @@ class Module:
                 cparams.append((pn, 'outval', pt))
             elif isinstance(role, tuple) and role[0] == 'ptr':
                 if not q.endswith('*') or q[:-1].replace('const ', '').strip() not in \
-                        ('char', 'unsigned char', 'uint8_t', 'signed char'):
+                        ('char', 'unsigned char', 'uint8_t', 'signed char', 'void'):
                     tr.refuse(f'pointer parameter {pn} of type {q} is not a byte pointer')
                 if role[1] in ('mem', 'bytes', 'out', 'opaque') or role[1] in LEAN_KEYWORDS - {'rd'}:
                     tr.refuse('region name ' + role[1])
@@ -1703,7 +1767,7 @@ class Module:
 
         def comp_type(c):
             if c == 'ret':
-                return 'Bool' if rett == 'bool' else f'BitVec {rett[1]}'
+                return 'Bool' if rett == 'bool' else 'Option Nat' if rett == ('ptr',) else f'BitVec {rett[1]}'
             if c == 'struct':
                 return tr.struct[1].name
             if c == 'ev':
@@ -1722,6 +1786,7 @@ class Module:
         tr.sigparams = ''.join(x + ' ' for x in sigp)
         tr.sigargs = ''.join(x + ' ' for x in siga)
         cut_types = {}
+        ptr_regions = set()
 
         def tuple_of(parts):
             if not parts:
@@ -1739,7 +1804,17 @@ class Module:
             elif rett is not None:
                 if val is None:
                     tr.refuse('control reaches the end of a non-void function')
-                if rett == 'bool':
+                if rett == ('ptr',):
+                    if val.t == ('nullptr',):
+                        e = '(none : Option Nat)'
+                    elif val.t[0] == 'ptr' and len(val.t) == 2 and val.t[1] not in ('out', 'opaque', 'bytes'):
+                        ptr_regions.add(val.t[1])
+                        if len(ptr_regions) > 1:
+                            tr.refuse('returns pointers into different regions')
+                        e = f'(some {tr.atom(val.e)})'
+                    else:
+                        tr.refuse('return of ' + str(val.t))
+                elif rett == 'bool':
                     if val.t[0] == 'bool':
                         e = val.e
                     elif val.t[0] != 'int':
@@ -1787,12 +1862,17 @@ class Module:
             rt = f'Option ({rt})'
         tr.ret_type = rt
         term = tr.stmts(body['inner'], env, ret)
+        if has_loop and tr.nloops == 0:
+            # every loop was unrolled: no fuel, no Option
+            return self.fn(cname, roles, stop_at, keep, flt, lean_name, _unrolled=True)
+        if _unrolled and tr.nloops:
+            tr.refuse('internal: loop left after unrolling')
         if set(tr.uses_ext) - set(ext_used):
             tr.refuse('internal: extern functions not found by the pre-scan')
         text = ''.join(x + '\n' for x in tr.loopdefs)
         text += f'def {name} {tr.sigparams}{" ".join(leanparams)} : {rt} :=\n{indent(term)}\n'
         rr = None
-        if rett not in (None, 'bool') and tr.ret_ranges:
+        if rett not in (None, 'bool', ('ptr',)) and tr.ret_ranges:
             rr = (min(r[0] for r in tr.ret_ranges), max(r[1] for r in tr.ret_ranges))
         txt_all = text
         self.sigs[cname] = Sig(name, cparams, rett, comps, ret_range=rr, struct_mut=struct_mut,
@@ -1910,9 +1990,44 @@ def c06t_module(repo=None, workdir='/tmp'):
     return m.text('Usual.Gen.C06T', GEN_NOTE % ('usual/cbtree.c, usual/bits.h', 'C06'))
 
 
+def c11t_module(repo=None, workdir='/tmp'):
+    """usual/utf8.c: utf8_validate_string (the loop) around utf8_validate_seq; here pointers are
+    offsets into one region `rs` (in lean/Usual/Gen/C11.lean the source pointer is the constant 0)"""
+    repo = repo or _default_repo()
+    m = Module(os.path.join(repo, 'usual', 'utf8.c'), repo, flt='utf8_')
+    m.fn('utf8_validate_seq', {'src': ('ptr', 'rs'), 'srcend': ('ptr', 'rs')})
+    m.fn('utf8_validate_string', {'src': ('ptr', 'rs'), 'end': ('ptr', 'rs')})
+    return m.text('Usual.Gen.C11T', GEN_NOTE % ('usual/utf8.c', 'C11'))
+
+
+def c02t_module(repo=None, workdir='/tmp'):
+    """usual/json.c: parse_hex (its constant-bound `for` loop is unrolled: every test is decided
+    by the value ranges)"""
+    repo = repo or _default_repo()
+    stub = _stub(workdir, 'c02t_stub.c', '#include "usual/json.c"\n')
+    m = Module(stub, repo, flt='parse_hex')
+    m.fn('parse_hex', {'s': ('ptr', 'rs'), 'end': ('ptr', 'rs')})
+    return m.text('Usual.Gen.C02T', GEN_NOTE % ('usual/json.c', 'C02'))
+
+
+def c14t_module(repo=None, workdir='/tmp'):
+    """usual/string.c: the compat memrchr (compiled in the forced-compat configuration that
+    checks/c14_cfg.py derives from the tree: HAVE_MEMRCHR commented out of config.h)"""
+    repo = repo or _default_repo()
+    sys.path.insert(0, os.path.join(os.path.dirname(os.path.dirname(os.path.abspath(__file__))), 'checks'))
+    import c14_cfg
+    cfgdir = c14_cfg.derive(repo, workdir)[0]
+    m = Module(os.path.join(repo, 'usual', 'string.c'), repo, flt='memrchr', extra=('-I' + cfgdir,))
+    m.fn('usual_memrchr', {'s': ('ptr', 'rp'), 'c': 'val', 'n': 'val'})
+    return m.text('Usual.Gen.C14T', GEN_NOTE % ('usual/string.c (forced-compat config)', 'C14'))
+
+
 TTIE = {
     'C12': (c12t_module, 'usual/mbuf.h + usual/mbuf.c'),
     'C09': (c09t_module, 'usual/bits.h safe_mul_*'),
+    'C11': (c11t_module, 'usual/utf8.c utf8_validate_string'),
+    'C02': (c02t_module, 'usual/json.c parse_hex'),
+    'C14': (c14t_module, 'usual/string.c memrchr'),
     'C06': (c06t_module, 'usual/cbtree.c get_bit/find_crit_bit + usual/bits.h fls'),
 }
 
